@@ -489,8 +489,8 @@ func specCommand(name string, n int, words string) string {
 //@   loop 1 invariant[C18] command-k-is-name-and-words: forall(k, 0, len(callStrings), callStrings[k] == specCommand(callsCopy[k].name, len(callsCopy[k].args), res(strings_Join, k, 0)))
 //@   loop 1 invariant[C18] frame: sameExcept(c, old(c))
 //@   ensures[C18] commands-in-order-joined-by-pipes: calls(strings_Join) == len(calls) + 1 && arg(strings_Join, len(calls), 1) == " | " && len(arg(strings_Join, len(calls), 0)) == len(calls) && forall(k, 0, len(calls), arg(strings_Join, k, 1) == " " && len(arg(strings_Join, k, 0)) == len(calls[k].args) && forall(i, 0, len(calls[k].args), arg(strings_Join, k, 0)[i] == specWord(calls[k].args[i])) && arg(strings_Join, len(calls), 0)[k] == specCommand(calls[k].name, len(calls[k].args), res(strings_Join, k, 0)))
-//@   ensures[C18] statement-form-runs-the-pipeline: !valueUsed ==> appended(c.code, old(c.code), res(strings_Join, len(calls), 0)) && len(result0) == 3 && result0[0] == "" && result0[1] == "" && result0[2] == "0" && err == nil && sameExcept(c, old(c), "code")
-//@   ensures[C18] value-form-captures-output-then-status: valueUsed ==> appended(c.code, old(c.code), specAssign(specName(len(c.funcs) > 0, c.funcCounter, specHelperName(old(c.varCounter)), false), "$(" + res(strings_Join, len(calls), 0) + ")"), specAssign(specName(len(c.funcs) > 0, c.funcCounter, specHelperName(old(c.varCounter) + 1), false), "$?"))
+//@   ensures[C18] statement-form-runs-the-pipeline: !valueUsed ==> appended(c.code, old(c.code), res(strings_Join, calls(strings_Join) - 1, 0)) && len(result0) == 3 && result0[0] == "" && result0[1] == "" && result0[2] == "0" && err == nil && sameExcept(c, old(c), "code")
+//@   ensures[C18] value-form-captures-output-then-status: valueUsed ==> appended(c.code, old(c.code), specAssign(specName(len(c.funcs) > 0, c.funcCounter, specHelperName(old(c.varCounter)), false), "$(" + res(strings_Join, calls(strings_Join) - 1, 0) + ")"), specAssign(specName(len(c.funcs) > 0, c.funcCounter, specHelperName(old(c.varCounter) + 1), false), "$?"))
 //@   ensures[C18] value-form-results-are-the-two-helpers: valueUsed ==> len(result0) == 3 && result0[0] == specRef(specName(len(c.funcs) > 0, c.funcCounter, specHelperName(old(c.varCounter)), false)) && result0[1] == "" && result0[2] == specRef(specName(len(c.funcs) > 0, c.funcCounter, specHelperName(old(c.varCounter) + 1), false)) && err == nil
 //@   ensures[C18] value-form-frame: valueUsed ==> sameExcept(c, old(c), "code", "varCounter") && c.varCounter == old(c.varCounter) + 2
 //@   ensures[C08,C18,FINDING] every-argument-is-one-quoted-word: forall(k, 0, len(calls), forall(i, 0, len(calls[k].args), arg(strings_Join, k, 0)[i] == "\"" + specDQEscape(calls[k].args[i]) + "\""))
